@@ -41,7 +41,7 @@ func init() {
 					u = append(u, fmt.Sprintf("only %d non-trivial cases with consumer timing %s", m.C("nontrivial_"+t), t))
 				}
 			}
-			for _, c := range []string{"opexec_events", "loop_events", "tryeval_event_runs", "failed_applications_seen", "andor_applications_seen", "mode_debug", "mode_report_event", "events_retained_across_evaluations", "handle_debug_event_runs", "race_evaluations", "race_events_formatted", "caller_context_kind_2", "caller_context_kind_3"} {
+			for _, c := range []string{"opexec_events", "loop_events", "tryeval_event_runs", "failed_applications_seen", "andor_applications_seen", "mode_debug", "mode_report_event", "events_retained_across_evaluations", "handle_debug_event_runs", "race_evaluations", "race_events_formatted", "caller_context_kind_2", "caller_context_kind_3", "handle_debug_event_list_runs"} {
 				if m.C(c) == 0 {
 					u = append(u, c+" = 0")
 				}
@@ -310,6 +310,9 @@ func c12Run(w *W, idx int) {
 			}
 		}
 	}
+	if idx%40 == 8 {
+		c12DebugHelperLists(w, r)
+	}
 	if plain.Dump != evv.Dump {
 		w.Fail("event-mode-changes-dump", "Dump differs between the plain and the event-mode program\nsource: %s\nconfig: %s\nplain:  %s\nevents: %s", src, ecfg, oneLine(plain.Dump), oneLine(evv.Dump))
 	}
@@ -572,6 +575,72 @@ func c12Big(w *W, r *rand.Rand, tree *Node) {
 		w.Count("opexec_events", int64(len(opExecOnly(evs))))
 		if !outcomeEq(po, eo) {
 			w.Fail("event-mode-changes-result/big", "large program (%d source nodes): plain gives %s, event mode gives %s\nconfig: %s", tree.Size(), po, eo, ecfg)
+		}
+	}
+}
+
+// c12DebugHelperLists: the library's own consumer (HandleDebugEvent) formats what it receives; the lists it prints belong
+// to the compiled program (literals) and to the caller (variables) and stay as they are.
+func c12DebugHelperLists(w *W, r *rand.Rand) {
+	n := 9 + r.Intn(8)
+	lit := make([]string, n)
+	varList := make([]string, n)
+	ints := make([]int64, n)
+	for i := range lit {
+		lit[i] = fmt.Sprintf("lang%d", i)
+		varList[i] = fmt.Sprintf("tag%d", i)
+		ints[i] = int64(i * 3)
+	}
+	probe := []int{8, n - 1, 0, 4}[r.Intn(4)]
+	tree := Op("or", TBool,
+		Op("in", TBool, Var("s0", TStr), Lit(lit)),
+		Op("overlap", TBool, Var("ls0", TSList), Lit([]string{"none", varList[probe]})),
+		Op("in", TBool, Var("i0", TInt), Lit(ints)))
+	src := tree.Prefix()
+	vals := map[string]interface{}{"s0": "absent", "ls0": varList, "i0": int64(-1)}
+	if r.Intn(2) == 0 {
+		vals["s0"] = lit[probe]
+	}
+	mode := 1 + r.Intn(2)
+	cfg := cfgFor(tree, OptSet(r.Intn(16)), false)
+	plain, ok := compileVariant(w, tree, src, cfg, "plain")
+	if !ok {
+		return
+	}
+	ecfg := cfg
+	ecfg.Events = mode
+	hv, ok := compileVariant(w, tree, src, ecfg, "handle-debug-event")
+	if !ok {
+		return
+	}
+	want, _ := callExpr(plain.E, CallEval, fetcherFor(Binding{Vals: vals}, nil), nil, false)
+	before := append([]string{}, varList...)
+	for round := 0; round < 2; round++ {
+		ch := make(chan eval.Event)
+		hv.E.EventChan = ch
+		eval.HandleDebugEvent(hv.E)
+		kind := []CallKind{CallEval, CallTryEval}[round]
+		got := guard(func() (eval.Value, error) {
+			if kind == CallTryEval {
+				return hv.E.TryEval(&eval.Ctx{VariableFetcher: fetcherFor(Binding{Vals: vals}, nil)})
+			}
+			return hv.E.Eval(&eval.Ctx{VariableFetcher: fetcherFor(Binding{Vals: vals}, nil)})
+		})
+		close(ch)
+		time.Sleep(2 * time.Millisecond) // the helper may still be formatting the last event it received
+		w.Evals++
+		w.Inc("handle_debug_event_list_runs")
+		d, _ := dumpGuard(hv.E)
+		switch {
+		case !outcomeEq(want, got):
+			w.Fail("event-mode-changes-result/HandleDebugEvent", "round %d with HandleDebugEvent as consumer: plain gives %s, event mode gives %s\nsource: %s", round+1, want, got, src)
+			return
+		case d != hv.Dump:
+			w.Fail("program-changed-by-HandleDebugEvent", "the Dump of the program differs after HandleDebugEvent consumed its events\nbefore: %s\nafter:  %s", oneLine(hv.Dump), oneLine(d))
+			return
+		case !valEq(before, varList):
+			w.Fail("callers-list-changed-by-HandleDebugEvent", "the caller's list variable was changed while HandleDebugEvent consumed the events: %v -> %v", before, varList)
+			return
 		}
 	}
 }
